@@ -144,7 +144,7 @@ func shapeAfter(dt, prog string, idx int) (sh []int, ok bool) {
 
 // source builds a program prefix producing a source tensor of one of the layouts of the
 // properties' quantifiers; returns the prefix and the index of the source tensor.
-var layouts = []string{"rm", "cm", "cmb", "T", "slice", "stepslice", "mat"}
+var layouts = []string{"rm", "cm", "cmb", "T", "slice", "stepslice", "mat", "cmslice"}
 
 // cloneview: a Clone() of a strided view (keeps the strides and the whole window, is not a view)
 
